@@ -71,9 +71,13 @@ def strategy(tier: str, pid: str = "C10") -> st.SearchStrategy[Any]:
         st.sampled_from([["start"], ["stop"], ["cancel"], ["wait"]]),
         st.tuples(st.just("extra"), st.sampled_from(["finish", "fail", "fail", "block"])).map(list),
     )
+    failing = st.tuples(st.integers(0, 2), st.sampled_from(["raise"] * 6 + ["return", "block", "base"]),
+                        st.sampled_from(["propagate", "propagate", "raise"])).map(list)
     actor = st.fixed_dictionaries({
         "kind": st.just("actor"),
-        "script": st.lists(run_spec, min_size=1, max_size=nruns),
+        # a third of the scripts fail almost every run, so that restart limits are exhausted
+        "script": st.one_of(st.lists(run_spec, min_size=1, max_size=nruns), st.lists(run_spec, min_size=1, max_size=nruns),
+                            st.lists(failing, min_size=3, max_size=nruns + 2)),
         "limit": st.sampled_from([0, 1, 3, 3, None, None]),
         "delay": st.sampled_from([0.0, 2.0, 2.0]),
         "ops": st.lists(op, min_size=3, max_size=nops).map(lambda ops: [["start"]] + ops),
